@@ -204,12 +204,13 @@ func judgeToolLs(m *c39Model, p, eff, clean string, escapes bool, out string, te
 		return "ls-cap", fmt.Sprintf("%d entries listed, cap %d", len(body), caps["codeLsMaxEntries"])
 	}
 	for _, l := range body {
-		if strings.HasSuffix(l, "/") && !strings.Contains(l, "\t") {
-			c := ch[strings.TrimSuffix(l, "/")]
-			if c == nil || !c.dir {
+		if strings.HasSuffix(l, "/") {
+			if c := ch[strings.TrimSuffix(l, "/")]; c != nil && c.dir {
+				continue
+			}
+			if !strings.Contains(l, "\t") {
 				return "unrecorded-entry:tool-ls", fmt.Sprintf("directory entry %q under %q is not recorded", l, clean)
 			}
-			continue
 		}
 		i := strings.LastIndex(l, "\t")
 		if i < 0 {
